@@ -424,9 +424,9 @@ class _Gen:
             last = idx == n - 1
             kinds = [("field", 12), ("array", 5), ("lenmember", 4), ("hfield", 2)]
             if ctx["switchable"] and ctx["depth"] < self.size["max_depth"]:
-                kinds.append(("switch", 6))
+                kinds.append(("switch", 6 * self.size.get("nest", 1)))
             if ctx["depth"] < self.size["max_depth"]:
-                kinds.append(("chunked", 5 if not ctx["lex"] else 1))
+                kinds.append(("chunked", (5 if not ctx["lex"] else 1) * self.size.get("nest", 1)))
             if ctx["lex"]:
                 kinds.append(("break", 5))
             if last and not ctx["opt"]:
@@ -810,13 +810,16 @@ def _has_dummy(body):
 SIZES = {
     "quick": {"max_decls": 9, "max_packets": 3, "max_depth": 3, "body_n": 6, "case_n": 4},
     "big": {"max_decls": 13, "max_packets": 4, "max_depth": 4, "body_n": 8, "case_n": 5},
+    # deeper nesting (switch in case in chunked in case ...) and longer declaration chains; bodies
+    # stay short so that a tree still fits Hypothesis' entropy budget
+    "deep": {"max_decls": 18, "max_packets": 5, "max_depth": 6, "body_n": 5, "case_n": 3, "nest": 3},
 }
 _TIER = ["quick"]
 
 
 def set_tier(tier):
     """Called by the checks at the start of a task; the thorough tier draws half of its trees
-    from the larger size profile."""
+    from the larger size profile and one in eight from the deep one."""
     _TIER[0] = "thorough" if tier == "thorough" else "quick"
 
 
@@ -850,7 +853,10 @@ def trees(draw, features=None, min_decls=2, max_decls=None, max_packets=None, ca
         f.update(features)
     g = _Gen(draw, f)
     g.canonical = canonical
-    size = SIZES["big"] if (_TIER[0] == "thorough" and draw(st.booleans())) else SIZES["quick"]
+    size = SIZES["quick"]
+    if _TIER[0] == "thorough":
+        # half of the thorough trees use the larger profile, one in eight the deep one
+        size = SIZES[draw(st.sampled_from(("quick", "quick", "quick", "big", "big", "big", "big", "deep")))]
     g.size = size
     if max_decls is None:
         max_decls = size["max_decls"]
